@@ -54,6 +54,14 @@ def run(ctx):
     f = os.path.join(ctx.work, "edit_inst.json")
     with open(f, "w") as fh:
         json.dump(inst, fh)
+    if ctx.thorough:
+        # (0) inductive step: from EVERY structurally well-formed single model over the 3 variables (25 931 states: any acyclic graph on
+        # any node subset, any latent subset, any content-free CPD assignment incl. dangling parents) two steps of Next preserve IndInv
+        # (acyclic, edges inside the node set, latents and CPD owners inside the node set) and the action properties: the structural
+        # invariants hold at EVERY depth, not only up to the BFS bound below
+        ctx.tlc("ModelEdit", "CONSTANT MaxDepth = 0\nCONSTANT MaxObjs = 2\nCONSTANT NSim = 0\nCONSTANT KeepHist = FALSE\nINIT IndInit\nNEXT Next\n"
+                "INVARIANT IndInv\nPROPERTY RejectedUnchanged\nPROPERTY Frame\nCONSTRAINT OneStep\n",
+                env={"INST_FILE": f}, tag="MC_inductive", timeout=7200)
     # (i) design-level BFS (no history => abstract states are merged)
     d = 5 if ctx.thorough else 4
     ctx.tlc("ModelEdit", cfg(0, 2, 0, False).replace("CONSTRAINT DepthBound", f"CONSTRAINT DepthBound{d}"),
